@@ -145,7 +145,10 @@ def _case(draw, tier):
         fault["frac"] = draw(st.integers(0, 1000))  # position in [1..M] as a fraction
     return {"desc": desc, "invoke": draw(gen.invoke()), "backend": b, "hashing": draw(st.booleans()), "fault": fault,
             "second_round": draw(st.booleans()), "earlier_purged": draw(st.sampled_from([False, False, True])),
-            "start_some": draw(st.booleans())}
+            "start_some": draw(st.booleans()),
+            # Slurm: the accounting database has not caught up with the jobs accepted a moment ago (only the live
+            # queue knows them when the next invocation asks)
+            "acct_lag": draw(st.booleans())}
 
 
 def strategy(tier):
@@ -165,10 +168,11 @@ def enumerate_cases(tier):
     for b, hashing in combos:
         for n in range(1, top + 1):
             yield {"desc": FIXED, "backend": b, "hashing": hashing, "fault": {"type": "kill_write", "n": n},
-                   "second_round": False}
+                   "second_round": False, "acct_lag": n % 3 == 0}
         for k in (1, 2):
-            yield {"desc": FIXED, "backend": b, "hashing": hashing, "fault": {"type": "kill_between", "k": k},
-                   "second_round": False}
+            for lag in (False, True):
+                yield {"desc": FIXED, "backend": b, "hashing": hashing, "fault": {"type": "kill_between", "k": k},
+                       "second_round": False, "acct_lag": lag}
         for k in (1, 2, 3):
             for kind in ("exit1", "stderr-error", "garbage"):
                 yield {"desc": FIXED, "backend": b, "hashing": hashing, "fault": {"type": "cmdfail", "k": k, "kind": kind},
@@ -305,6 +309,11 @@ def run_case(case):
             for j in sim.startable()[: 1 + len(accepted) // 2]:
                 sim.start(j.id)
                 labels.add("accepted-job-running")
+        if case.get("acct_lag") and b == "slurm":
+            for j in accepted:
+                if not j.ended:
+                    j.in_acct = False
+            labels.add("accounting-lags-behind")
         # ---- follow-up invocations, fresh processes
         r1 = proj.gwf(["status"])
         if r1.code != 0 or r1.crashed:
